@@ -109,6 +109,7 @@ let () = iter_lines (fun line ->
          Printf.printf "%s res=%s left=%d reser=%s resize=%s norm=%s re=%s\n" id (show_res r) (int_of_z (res_left r))
            (hex_of_bytes bs2) (string_of_z (ssize t v)) (show_val (norm t v)) (show_res r2)
        | None -> Printf.printf "%s res=%s\n" id (show_res r))
-    with Failure m -> Printf.printf "%s ERROR %s\n" id m)
+    with Failure m -> Printf.printf "%s ERROR %s\n" id m
+       | Stack_overflow -> Printf.printf "%s res=9:-\n" id)  (* unary nat of a huge limit: no prediction *)
   | id :: _ -> Printf.printf "%s ERROR bad-line\n" id
   | [] -> ())
